@@ -143,6 +143,13 @@ CLAIMED = {
         "note": "Trusted: pathlib and re as the reference for one path vs one pattern; 'its paths' = the non-empty ones of src_path/dest_path. Bounded: alphabet of ~10 paths with case variants, ~20 pattern lists, ~15 regex lists.",
         "technique": "TLA+ model checking (TLC) decision table + law monitors (TLC) over outputs of the real handlers",
     },
+    "C08": {
+        "engine": "buffer",
+        "design_ref": "DESIGN.md §4.4, §7 C08",
+        "text": "Pairing.tla (reader grouping one event at a time: search the batch grouped so far, then remove(matching_from) from the delay queue; puts with delay only for an unmatched first half; IN_IGNORED dropped; abstract C17 delay queue; virtual clock) is checked by TLC over every well-formed native sequence up to length 2 (quick) / 3 (thorough) over {MF1,MT1,MF2,MT2,X,IGNORED}, every cut into read batches, every gap around the delay and every interleaving of reader and consumer. The real InotifyBuffer + Inotify.read_events are fed the same scripted sequences as raw inotify_event bytes through the os.read seam on the virtual clock (every sequence x batching x gaps, default/random schedules, DFS on racy programs) and TLC validates the fed/got/tick traces against PairingTrace.tla (exactly once, kernel order with a pair in the slot of one half, cookie mates, lone first half never early, lone second half only if the first had been handed out).",
+        "note": "Trusted: scripted inotify_event bytes per inotify(7) stand for the kernel; the OS seam; detsched shims. 'In time' is judged at the reader's processing step, which coincides with the read under the scheduler.",
+        "technique": "TLA+ model checking (TLC) + trace validation of the real buffer fed scripted native sequences under a deterministic scheduler",
+    },
 }
 
 NOT_YET = "check not built yet (in progress, see DESIGN.md §12)"
